@@ -10,11 +10,21 @@ LEVEL = 'proof'
 FEATURES = [{'rec'}, {'gen'}, {'gen', 'rec'}, {'co'}, {'gen', 'co', 'rec', 'mutual'}, set(), {'mutual', 'rec'}, {'gen', 'co'}, {'gen', 'straddle'}, {'selfdisable'}, {'selfdisable', 'gen', 'rec'}]
 
 
+GLUE = [{'oneline'}, {'oneline', 'regmodes'}, {'bare', 'snapmodes'}, {'snapinside', 'snapmodes'}, {'regmodes', 'gen'},
+        {'snapinside', 'snapmodes', 'gen', 'rec'}, {'bare', 'gen'}, {'snapmodes', 'co'}, {'regmodes', 'rec'}]
+
+
 def run(tier, seed):
     res = e1common.run_property(PROP, MODULE, THEOREMS, tier, seed, 160, 30000, FEATURES, 'hits')
     # the same property with the programs spread over real threads (shared profiler): hits only
     res2 = e1common.run_property(PROP, MODULE, THEOREMS, tier, seed + 1, 40, 3000, [{'gen'}, set(), {'rec'}], 'hits', threads=True, ticks=(0,))
-    return e1common.merge_results(res, res2, 'threaded_part')
+    res = e1common.merge_results(res, res2, 'threaded_part')
+    # the glue around the tracer: every registration entry point, every reading method (also from inside running
+    # code), plain enable()/disable() windows, one-line functions and lambdas; a monitoring thread that reads mid-run
+    res3 = e1common.run_property(PROP, MODULE, THEOREMS, tier, seed + 2, 72, 6000, GLUE, 'hits')
+    res = e1common.merge_results(res, res3, 'glue_part')
+    res4 = e1common.run_property(PROP, MODULE, THEOREMS, tier, seed + 3, 24, 2000, [{'monitor'}, {'monitor', 'gen'}], 'hits', threads=True, ticks=(0,))
+    return e1common.merge_results(res, res4, 'monitor_part')
 
 
 def replay(path):
